@@ -27,7 +27,7 @@ RULE = ("polynomial and rational numeric conditions up to degree 3 over <= 4 flu
         "case = one condition (or precondition) x digits; distinct by input text + digits; non-trivial when at least one "
         "decisive comparison was made on each side of the boundary")
 DECISIVE = ["compared:meaning"]
-DECISIVE_EACH = ["compared:form", "compared:meaning", "compared:precondition", "compared:disjunction"]
+DECISIVE_EACH = ["compared:form", "compared:meaning", "compared:precondition", "compared:disjunction", "compared:same-inequalities-in-another-context"]
 ASSUMPTIONS = ["exact rational evaluation is the specification; an output numeral may deviate from the true coefficient by up to 2 units of the last requested digit (allowance K=4 half-units)",
                "sympy's own simplifications are part of the system under test"]
 SHARDS = {"quick": 16, "thorough": 16}
@@ -764,6 +764,19 @@ def case_precondition(ctx, rng, fl, kind, digits, feats):
             lhs, rhs = ["*", "2", f], ["+", f, f]
         ineqs.append((rng.choice(CMP), lhs, rhs))
         feats.add("inequality-constant-after-elimination")
+    feats.add(f"equalities:{n_eq}")
+    r = judge_precondition(ctx, rng, fl, digits, eqs, ineqs, free, None)
+    if r is not None and eqs and rng.random() < 0.5:
+        # history: the same inequalities, printed again in a precondition WITHOUT the equalities.  What an inequality was
+        # rewritten to under one set of sibling conditions must not leak into the printing of the same text elsewhere.
+        ctx.count("compared:same-inequalities-in-another-context")
+        r2 = judge_precondition(ctx, rng, fl, digits, [], ineqs, fl, "printed right after the same inequalities with sibling equalities")
+        if r2 is None:
+            return None
+    return r
+
+
+def judge_precondition(ctx, rng, fl, digits, eqs, ineqs, free, history):
     conds = [f"(= (+ {x} {pddl(L)}) {c})" for x, L, c in eqs] + [f"({op} {pddl(l)} {pddl(r)})" for op, l, r in ineqs]
     rng.shuffle(conds)
     fdecl = []
@@ -774,7 +787,8 @@ def case_precondition(ctx, rng, fl, kind, digits, feats):
     dtext = ("(define (domain simp) (:requirements :numeric-fluents) (:predicates (ok)) (:functions " + " ".join(fdecl) + ") "
              "(:action a :parameters (" + " ".join(f"{p} - object" for p in params) + ") :precondition (and " + " ".join(conds) + ") :effect (and (ok))))")
     wit = {"api": "Precondition.print(should_simplify=True)", "conditions": conds, "decimal_digits": digits}
-    feats.add(f"equalities:{n_eq}")
+    if history:
+        wit["history"] = history
     try:
         dom = lib.parse_domain_text(dtext)
         out = dom.actions["a"].preconditions.print(should_simplify=True, decimal_digits=digits)
